@@ -1365,6 +1365,7 @@ func (ctx *RenderContext) getAttribute(obj interface{}, attr string) (interface{
 	if found {
 		// Found in cache, update access stats later with a write lock
 		attributeCache.RUnlock()
+		verifYield("attr.hitBetweenLocks")
 
 		// Update the entry's access statistics with a write lock
 		attributeCache.Lock()
